@@ -435,13 +435,18 @@ func runTx5(c *core.Ctx) {
 	c.CountFuncs(1)
 	// insert into xxhash_seed … with the value that is returned
 	var ins *ssa.Call
+	insSQL, inTx := "", false
 	for _, ci := range calls(seedFn) {
-		if call, ok := ci.(*ssa.Call); ok && strings.HasSuffix(an.CalleeName(&call.Call), "sql.DB).ExecContext") {
-			if q, ok := an.ConstStr(call.Call.Args[2]); ok && strings.Contains(q, "insert into xxhash_seed") {
+		if call, ok := ci.(*ssa.Call); ok && (strings.HasSuffix(an.CalleeName(&call.Call), "sql.DB).ExecContext") || strings.HasSuffix(an.CalleeName(&call.Call), "sql.Tx).ExecContext")) {
+			if q, ok := an.ConstStr(call.Call.Args[2]); ok && strings.Contains(q, "into xxhash_seed") && strings.Contains(q, "insert") {
 				ins = call
+				insSQL = strings.Join(strings.Fields(strings.ToLower(q)), " ")
+				inTx = strings.HasSuffix(an.CalleeName(&call.Call), "sql.Tx).ExecContext")
 			}
 		}
 	}
+	// an insert that is conditional on the table being empty, decided by the statement itself
+	onlyIfEmpty := strings.Contains(insSQL, "where not exists (select") && strings.Count(insSQL, "xxhash_seed") >= 2
 	if ins == nil {
 		c.Bad(nil, fname(c, seedFn), "persist-seed", P.Pos(seedFn.Pos()), "a fresh seed is generated but never inserted into xxhash_seed: after a restart a different seed is drawn and every stored event key stops matching (replacement and deletion silently stop working)")
 	} else {
@@ -453,6 +458,7 @@ func runTx5(c *core.Ctx) {
 		// the stored seed read back: the destination of the Scan on the seed table
 		loaded := ""
 		var loadedVar *ssa.Alloc
+		var readBack *ssa.Call // a Scan of the seed table that runs after the insert
 		loadOf := func(v ssa.Value) *ssa.Alloc {
 			if mi, isMI := v.(*ssa.MakeInterface); isMI {
 				v = mi.X
@@ -472,14 +478,19 @@ func runTx5(c *core.Ctx) {
 					} else {
 						loadedVar, _ = dst[0].(*ssa.Alloc)
 					}
+					if an.InstrDominates(ins, call) && strings.Contains(an.PathOf(call.Call.Args[0]), "select seed from xxhash_seed") {
+						readBack = call
+					}
 				}
 			}
 		}
 		var rets []string
 		okRet := true
+		nSuccess := 0
 		for _, rb := range an.ReturnBlocks(seedFn) {
 			r := an.LastInstr(rb).(*ssa.Return)
-			if an.IsNilConst(r.Results[1]) {
+			if an.IsNilConst(spilledResult(r, 1)) {
+				nSuccess++
 				p := an.PathOf(r.Results[0])
 				rets = append(rets, p)
 				afterInsert := ins.Block() == rb || ins.Block().Dominates(rb)
@@ -490,6 +501,12 @@ func runTx5(c *core.Ctx) {
 					// no insert on this way out: the seed read from the table
 				case loadedVar != nil && loadOf(r.Results[0]) == loadedVar && len(elems) == 1 && loadOf(elems[0]) == loadedVar:
 					// one variable for both (read back, or drawn and persisted)
+				case !afterInsert && !an.Reachable(ins.Block(), rb, nil, nil) && loadedVar != nil && loadOf(r.Results[0]) == loadedVar && holdsScanned(seedFn, loadedVar, rb, nil):
+					// no insert on this way out: the variable the seed was scanned into (a named result)
+				case afterInsert && onlyIfEmpty && readBack != nil && loadedVar != nil && loadOf(r.Results[0]) == loadedVar && holdsScanned(seedFn, loadedVar, rb, readBack) && (!inTx || seedTxCommitted(seedFn, rb)):
+					// insert-if-empty, then the stored seed read back (and, in a transaction, committed):
+					// whoever inserted, the value returned is the one row of the table
+					bound = an.PathOf(elems[0])
 				default:
 					okRet = false
 				}
@@ -504,8 +521,12 @@ func runTx5(c *core.Ctx) {
 				}
 			}
 		}
+		if nSuccess == 0 {
+			okRet = false
+			rets = append(rets, "no successful return recognised")
+		}
 		c.Check(okRet && bound != "" && errTested, nil, fname(c, seedFn), "persist-seed", P.Pos(ins.Pos()), "the seed bound into 'insert into xxhash_seed' ("+bound+") is the value returned on success, and a failed insert is an error",
-			fmt.Sprintf("seed persisted ← %s, returned ← %v, insert error tested: %v", bound, rets, errTested))
+			fmt.Sprintf("seed persisted ← %s, returned ← %v, insert error tested: %v%s", bound, rets, errTested, seedReadBackNote(readBack != nil, onlyIfEmpty)))
 	}
 	// the handler's seed field is only ever set from that function
 	n, bad := 0, []string{}
@@ -526,6 +547,127 @@ func runTx5(c *core.Ctx) {
 		})
 	}
 	c.Check(n >= 1 && len(bad) == 0, nil, "simpleSQLiteHandler", "seed-source", "-", fmt.Sprintf("%d assignment(s) of the handler's seed, all from %s", n, seedFn.Name()), "the handler's seed is assigned from "+strings.Join(bad, "; ")+": keys computed after a restart differ from the stored ones")
+}
+
+// holdsScanned: at the return in rb the variable v still holds what a Scan of the seed table
+// put there: such a Scan (the given one, or any) dominates rb, and v is otherwise assigned
+// only in other returning blocks (the spilled `return 0, err`) or by itself.
+func holdsScanned(fn *ssa.Function, v *ssa.Alloc, rb *ssa.BasicBlock, scan *ssa.Call) bool {
+	dominated := false
+	for _, ci := range calls(fn) {
+		call, ok := ci.(*ssa.Call)
+		if !ok || !strings.HasSuffix(an.CalleeName(&call.Call), "sql.Row).Scan") || scan != nil && call != scan {
+			continue
+		}
+		dst, _ := an.VariadicElems(call.Call.Args[len(call.Call.Args)-1])
+		if len(dst) != 1 {
+			continue
+		}
+		d := dst[0]
+		if mi, isMI := d.(*ssa.MakeInterface); isMI {
+			d = mi.X
+		}
+		if d == ssa.Value(v) && (call.Block() == rb || call.Block().Dominates(rb)) {
+			dominated = true
+		}
+	}
+	if !dominated {
+		return false
+	}
+	ok := true
+	an.Instrs(fn, func(in ssa.Instruction) {
+		st, isSt := in.(*ssa.Store)
+		if !isSt || st.Addr != ssa.Value(v) {
+			return
+		}
+		if u, isLoad := st.Val.(*ssa.UnOp); isLoad && u.X == ssa.Value(v) {
+			return
+		}
+		_, returns := an.LastInstr(st.Block()).(*ssa.Return)
+		if st.Block() == rb || !returns {
+			// the zero initialisation of a result variable in the entry block is harmless:
+			// the dominating Scan comes after it
+			if st.Block() == fn.Blocks[0] && !an.Reachable(rb, st.Block(), nil, nil) {
+				if k, isK := st.Val.(*ssa.Const); isK && k.Value != nil && k.Value.String() == "0" {
+					return
+				}
+			}
+			ok = false
+		}
+	})
+	return ok
+}
+
+func seedReadBackNote(readBack, onlyIfEmpty bool) string {
+	if readBack && !onlyIfEmpty {
+		return "; the stored seed is read back after an insert that is not conditional on the table being empty (`where not exists (select … from xxhash_seed)`): the seed column is its own primary key, so a conflict clause never fires, every open adds a row, and the row that is read back — hence every event key — can change across a restart"
+	}
+	return ""
+}
+
+// spilledResult: result i of a return; in a function with named results and a defer go/ssa
+// returns loads of the result variables — then the value stored into that variable in the
+// returning block (`return seed, nil` is `*err = nil; rundefers; return *seed, *err`).
+func spilledResult(r *ssa.Return, i int) ssa.Value {
+	v := r.Results[i]
+	u, ok := v.(*ssa.UnOp)
+	if !ok {
+		return v
+	}
+	a, ok := u.X.(*ssa.Alloc)
+	if !ok {
+		return v
+	}
+	var last ssa.Value
+	for _, in := range r.Block().Instrs {
+		if st, ok := in.(*ssa.Store); ok && st.Addr == ssa.Value(a) {
+			last = st.Val
+		}
+	}
+	if last != nil {
+		return last
+	}
+	return v
+}
+
+// seedTxCommitted: the success return in rb is reached only with the transaction committed:
+// an explicit Commit whose error is tested dominates it, or a deferred closure commits and
+// hands the commit error to the function's named error result.
+func seedTxCommitted(fn *ssa.Function, rb *ssa.BasicBlock) bool {
+	for _, g := range closureFamily(fn) {
+		for _, ci := range calls(g) {
+			call, ok := ci.(*ssa.Call)
+			if !ok || !strings.HasSuffix(an.CalleeName(&call.Call), "sql.Tx).Commit") {
+				continue
+			}
+			if g == fn {
+				if (call.Block() == rb || call.Block().Dominates(rb)) && call.Referrers() != nil && len(*call.Referrers()) > 0 {
+					return true
+				}
+				continue
+			}
+			// inside a deferred closure: its result must reach a captured variable (the named result)
+			deferred := false
+			an.Instrs(fn, func(in ssa.Instruction) {
+				if d, ok := in.(*ssa.Defer); ok {
+					if mc, ok := d.Call.Value.(*ssa.MakeClosure); ok && mc.Fn == ssa.Value(g) {
+						deferred = true
+					}
+				}
+			})
+			if !deferred || call.Referrers() == nil {
+				continue
+			}
+			for _, r := range *call.Referrers() {
+				if st, ok := r.(*ssa.Store); ok {
+					if _, isFree := st.Addr.(*ssa.FreeVar); isFree {
+						return true
+					}
+				}
+			}
+		}
+	}
+	return false
 }
 
 func init() {
